@@ -41,7 +41,7 @@ class KeyIds(Obligation):
     def __init__(self,seed=0,known=(),**kw):
         self.seed=seed
         self.bounds={'ed25519':'32 key bytes, 3 of them free','ecdsa':'65-byte uncompressed point, 2 bytes free','rsa':'the repository\'s 2048-bit fixture (concrete: PEM/base64 of symbolic bytes is outside the models)',
-                     'hash algorithm list':'default [sha256,sha512], absent, [sha256]','construction paths':'PublicKey::new, from_ed25519(_with_keyid_hash_algorithms), from_spki(DER), from_pem_spki(PEM) (rsa)'}
+                     'hash algorithm list':'default [sha256,sha512], absent, [sha256], unsorted [sha512,sha256], repeated [sha256,sha256], empty []','construction paths':'PublicKey::new, from_ed25519(_with_keyid_hash_algorithms), from_spki(DER), from_pem_spki(PEM) (rsa)'}
         self.witnesses=['ed25519','ecdsa','rsa']; self.seen=set()
     def setup(self,eng,tier):
         self.eng=eng; self.b=B(eng)
@@ -74,7 +74,7 @@ class KeyIds(Obligation):
         return go
     def mk_args(self,run):
         kind=['ed25519','ecdsa','rsa'][run.pick(3,'kind')]
-        algs=[['sha256','sha512'],None,['sha256']][run.pick(3,'algs')]
+        algs=[['sha256','sha512'],None,['sha256'],['sha512','sha256'],['sha256','sha256'],[]][run.pick(6,'algs')]
         if kind=='ed25519': value=[z3.BitVec('k%d'%i,8) for i in range(3)]+list(FIXTURE_ED25519_PUB[3:])
         elif kind=='ecdsa': value=[4]+[z3.BitVec('k%d'%i,8) for i in range(2)]+[9]*62
         else:
